@@ -300,6 +300,11 @@ impl UserTx {
 
 #[cfg(feature = "verif")]
 impl UtpStreamWriteHalf {
+    /// Verification hook: dump of the state shared with the connection (it outlives the connection).
+    pub fn verif_shared_fp(&self, out: &mut Vec<u64>) {
+        self.user_tx.verif_fp(out)
+    }
+
     /// Verification hook: the write half's only private state.
     pub fn verif_written_without_yield(&self) -> u64 {
         let UtpStreamWriteHalf {
